@@ -22,6 +22,8 @@ every history of expressions of any length and every starting table of children:
   injectively* (`PrintInjective`); `C18_distinct_witness` — the full statement is FALSE for the printer of the
   originally pinned code (`str(operand)`): `x[1]` and `x["1"]` (and `a + 1`, `a + "1"`) get the same node;
   `C18_distinct_repaired` — it is a theorem for the printer now in /repo (type name + `repr`, hashed as a tuple).
+* `C18_restart_stable` / `C18_restart_witness` — reuse after save / restart of the interpreter / load: holds iff
+  the label does not depend on the interpreter session; FALSE for the salted `hash` used in /repo.
 * `C18_dispatch`, `C18_dispatch_injective`, `C18_inputs`, `C18_reflected_only_rmul` — every operator method
   injects the node class that computes the same Python operation with the operands in the same order; no two
   operators share a class; the class has exactly the input channels the call fills; the only reflected
@@ -282,6 +284,33 @@ theorem C18_slice_raise_effect (H : Key → String) (p : Printer) (st : St) (par
       (inject_WF H p st (some par) _ hwf) hl]
     rfl
 
+/-! ### a new interpreter session
+
+`hash` of a string (and of a tuple of strings) is salted per interpreter process: after saving a workflow,
+restarting Python and loading it, the labels of the injected children are the old ones, while new labels
+are computed with another hash function `H'`. -/
+
+/-- reuse across sessions: the expression written again after the restart gets the node made before it -/
+def RestartStatement (stable : Bool) : Prop :=
+  ∀ (H H' : Key → String) (p : Printer) (st : St) (par : Nat) (e : Expr),
+    (stable = true → H' (key p e) = H (key p e)) →
+    inject H' p (inject H p st (some par) e).1 (some par) e
+      = ((inject H p st (some par) e).1, (inject H p st (some par) e).2)
+
+/-- with a label that does not depend on the session (a stable digest of the key) reuse survives a restart -/
+theorem C18_restart_stable : RestartStatement true := by
+  intro H H' p st par e hs
+  have hl : label H' p e = label H p e := by simp only [label, hs rfl]
+  exact inject_found H' p _ par e _ (by rw [hl]; exact inject_lookup_self H p st par e)
+
+/-- FALSE on the tree as it is (salted `hash`): the same expression after a restart adds a second node -/
+theorem C18_restart_witness : ¬ RestartStatement false := by
+  intro h
+  have := h (fun _ => "1") (fun _ => "2") .repaired emptySt 0 wAddInt (by intro h; cases h)
+  have h2 := congrArg (·.2) this
+  revert h2
+  decide
+
 /-! ## Non-vacuity -/
 
 /-- a toy hash that separates the keys below -/
@@ -352,3 +381,5 @@ end PwVerif.C18
 #print axioms PwVerif.C18.C18_slice_value
 #print axioms PwVerif.C18.C18_slice_reuse
 #print axioms PwVerif.C18.C18_slice_raise_effect
+#print axioms PwVerif.C18.C18_restart_stable
+#print axioms PwVerif.C18.C18_restart_witness
